@@ -164,7 +164,15 @@ EXPLORE.update({
            "weight/total, the rest in order, the same identifier makes the same choice, different identifiers are "
            "independent. The library is Prolog text, so there is no Python body to put under a deductive contract.",
 })
-FUNCTION_LEVEL = ("C11", "C13", "C14", "C18")
+EXPLORE.update({
+    "C17": "Run-time contracts on the parser entry point and on print -> parse: (a) for seeded mutations of the repository's "
+           "test programs, snippet concatenations and random strings, iterating PrologString(text) returns or raises a "
+           "ProbLogError subclass within 10 s, never another exception; (b) for seeded terms and clauses built with the public "
+           "constructors over the full operator table (nested operators, \\+/not, lists, strings, quoted atoms, probabilities, "
+           "annotated disjunctions), PrologString(str(t) + '.') yields exactly one clause == t. Three defects found this way "
+           "were repaired (fix: commits).",
+})
+FUNCTION_LEVEL = ("C11", "C13", "C14", "C18", "C17")
 FN_BOUNDED_TECH = ("run-time contract (pre/post-condition against an independent reference) on the real functions over a "
                    "bounded input family; the deductive contracts planned for these functions were not built, so nothing "
                    "here is counted as proved")
